@@ -46,7 +46,7 @@ OnConnect(e, i) ==
   LET adv == [k \in D!Kinds |-> e.adv[k]]
       modelAdv == [k \in D!Kinds |-> DeclAdv(k)]
       W == AsSet(e.want) IN
-  /\ Check(i, "D.AdvCurrent", \A k \in D!Kinds : adv[k] = DeclAdv(k))
+  /\ \A k \in D!Kinds : Check(i, "D.AdvCurrent." \o k, adv[k] = DeclAdv(k))
   /\ Check(i, "D.AckExact", e.era = "modern" => AsSet(e.ack) = {k \in W : adv[k] = "lcT"})
   /\ Check(i, "drift", e.era = "modern" => AsSet(e.ack) = D!DynAck(W, modelAdv))
   /\ m' = [m EXCEPT !.open = m.open \cup {e.s}, !.era = Ext(m.era, e.s, e.era), !.snap = Ext(m.snap, e.s, adv),
